@@ -45,6 +45,9 @@ class Family:
         return {}
 
 
+CRASHES = {}
+
+
 def xrun(fam, cases):
     """run implementation and model on the cases; returns {id: rec}"""
     groups = {}
@@ -60,6 +63,25 @@ def xrun(fam, cases):
         pre = {c["id"]: c["pre_obs"] for c in cs if c.get("pre_obs") is not None}
         hl = [fam.harness_line(c) for c in cs if c.get("pre_obs") is None]
         i1, r1, e1 = core.run_lines([core.HARNESS] + list(hm), hl) if hl else ({}, 0, "")
+        if r1 not in (0, 124) and hl:
+            # the harness process died (a panic or a fatal error inside the code under test takes the process down):
+            # the cases without an answer are run again, each alone; one that kills the process again, alone, is a
+            # concrete failing run of the implementation
+            missing = [c for c in cs if c.get("pre_obs") is None and c["id"] not in i1]
+            for c in missing[:3]:
+                o1, rr, ee = core.run_lines([core.HARNESS] + list(hm), [fam.harness_line(c)], timeout=300)
+                if c["id"] in o1:
+                    i1[c["id"]] = o1[c["id"]]
+                elif rr not in (0, 124):
+                    o2, rr2, ee2 = core.run_lines([core.HARNESS] + list(hm), [fam.harness_line(c)], timeout=300)
+                    if c["id"] not in o2 and rr2 not in (0, 124):
+                        msg = [l for l in ee2.splitlines() if l.startswith(("panic:", "fatal error:"))]
+                        i1[c["id"]] = "!crash:" + (msg[0] if msg else "exit-%s" % rr2).replace(" ", "_")[:160]
+                        CRASHES[c["id"]] = ee2[-1500:]
+            rest = [c for c in missing[3:]]
+            if rest and any(c["id"] in i1 for c in missing[:3]):
+                o3, r3, e3 = core.run_lines([core.HARNESS] + list(hm), [fam.harness_line(c) for c in rest])
+                i1.update(o3)
         i1.update(pre)
         impl.update(i1)
         dl = [fam.driver_line(c, i1.get(c["id"])) for c in cs]
@@ -70,10 +92,12 @@ def xrun(fam, cases):
     recs = {}
     for c in cases:
         i = impl.get(c["id"])
-        if i is not None:
+        if i is not None and not i.startswith("!crash"):
             i = fam.impl_obs_for(c, i) if hasattr(fam, "impl_obs_for") else fam.impl_obs(i)
         m = model.get(c["id"])
         d = core.parse_driver(m) if m else {"obs": None}
+        if (i or "").startswith("!crash"):
+            d["ispec"] = "FAIL:the-implementation-crashed(" + i[7:] + ")"
         recs[c["id"]] = {"impl": i, "model": d.get("obs"), "spec": d.get("spec"), "ispec": d.get("ispec"),
                          "dom": d.get("dom"), "nt": d.get("nt"), "amb": d.get("amb")}
     return recs, (rc, err, rc2, err2)
@@ -154,6 +178,9 @@ def check(fam, tier, seed, replay=None):
             r = recs.get(c["id"], {})
             if r.get("amb") == "1" or (r.get("impl") or "").startswith("!stall"):
                 continue      # outcome depends on Go's map iteration order / the harness itself was stalled: no comparison, no verdict
+            if (r.get("impl") or "").startswith("!crash"):
+                viol.append(c)
+                continue
             if r.get("impl") is None or r.get("model") is None:
                 disagree.append(c)
                 continue
